@@ -268,12 +268,13 @@ func c10CheckConn(c C10Conn) *pbt.Violation {
 	cb.SetCipher(CFB8.NewCFB8Encrypt(blk, key), CFB8.NewCFB8Decrypt(blk, key))
 	ca.SetThreshold(c.Threshold)
 	cb.SetThreshold(c.Threshold)
-	run := func(from, to *mcnet.Conn, dir string) *pbt.Violation {
+	run := func(from, to *mcnet.Conn, fromEnd *iox.Duplex, dir string) *pbt.Violation {
 		for i, f := range c.Frames {
 			if err := from.WritePacket(pk.Packet{ID: f.ID, Data: f.payload()}); err != nil {
 				return pbt.V("c10.conn.write", "encrypted connection", "%s WritePacket #%d: %v", dir, i, err)
 			}
 		}
+		fromEnd.CloseWrite() // nothing more follows in this direction
 		var p pk.Packet
 		var kept []pk.Packet
 		for i, f := range c.Frames {
@@ -302,11 +303,11 @@ func c10CheckConn(c C10Conn) *pbt.Violation {
 		}
 		return nil
 	}
-	if v := run(ca, cb, "a->b"); v != nil {
+	if v := run(ca, cb, a, "a->b"); v != nil {
 		return v
 	}
 	if c.BothWays {
-		if v := run(cb, ca, "b->a"); v != nil {
+		if v := run(cb, ca, b, "b->a"); v != nil {
 			return v
 		}
 	}
